@@ -240,13 +240,18 @@ func (s *Handler) run() {
 		resolvedSource := resolveSource(s.Conf.Source, s.Matches, s.query)
 
 		runCtx, runCtxCancel = context.WithCancel(context.Background())
+
+		// fill parameters here, not in the routine below,
+		// since s.Conf and runCtx are changed by this routine
+		params := defs.StaticSourceRunParams{
+			Context:        runCtx,
+			ResolvedSource: resolvedSource,
+			Conf:           s.Conf,
+			ReloadConf:     runReloadConf,
+		}
+
 		go func() {
-			runErr <- s.instance.Run(defs.StaticSourceRunParams{
-				Context:        runCtx,
-				ResolvedSource: resolvedSource,
-				Conf:           s.Conf,
-				ReloadConf:     runReloadConf,
-			})
+			runErr <- s.instance.Run(params)
 		}()
 	}
 
